@@ -16,15 +16,26 @@ HARNESS_BIN = 'c18'
 RUN_MODULE = 'Run.C18'
 REPO_BINS = ['sccache-dist']
 COQ_EXTRA = []
+# the deadlock-freedom half ("never stops serving" under truly concurrent requests): its own file of pinned
+# statements, so that a broken lock order does not stop the model from being built and the legs from running
+EXTRA_PROPERTY_FILES = ['theories/Properties/C18Locks.v']
+EXTRA_THEOREMS = {'theories/Properties/C18Locks.v': ['C18_lock_order', 'C18_lock_pieces', 'C18_no_deadlock',
+                                                     'C18_lock_discipline_sound']}
+# real-thread runs (stress SECS CLIENTS OBSERVERS): a short smoke run in every check, a long one as the search for
+# a "stopped serving" run when a proof-side obligation (in particular the lock order) no longer checks
+STRESS_SMOKE = {'quick': [b'stress', 2, 3, 2], 'thorough': [b'stress', 8, 4, 3]}
+STRESS_SEARCH = [[b'stress', 12, 4, 3], [b'stress', 6, 8, 4]]
 THEOREMS = ['C18_consts_ok', 'C18_attribution', 'C18_capacity', 'C18_transitions', 'C18_update_result',
             'C18_in_progress', 'C18_never_panics', 'C18_no_leak', 'C18_unfixed_refuted', 'C18_unfixed_leak_refuted']
 ASSUMPTIONS = [
+    'deadlock freedom is proved for the handlers\' mutex events (std::sync::Mutex: blocking, not re-entrant, released at scope end); do_assign_job is assumed to return eventually; fairness of the OS scheduler is not modelled',
     'time-outs excluded, as the property says: prune_servers (no heartbeat for 90 s), stale unclaimed jobs (60 s / 300 s) and forgetting a server error (300 s) never fire; the hook refuses any case that took longer than 20 s',
     'each handler piece between two lock acquisitions is atomic (it runs under the mutexes the code takes for it); the model\'s messages are exactly those pieces, so "all message sequences" = all interleavings of request threads',
     'the iteration order of the servers HashMap is arbitrary: a parameter of alloc_begin in the model (theorems quantify over it), forced in the hook by rebuilding the map until it iterates as scripted',
     'load_weight\'s f64 quotient orders like the exact rational (true for core counts below 2^25); whether generate_token fails is a fixed attribute of a registration (scripted through the JobAuthorizer the hook registers)',
 ]
 TRUSTED = [
+    'translator/c18_consts.py read_locks: mutex acquisitions are recognised only in the block-scoped form `let g = self.<mutex>.lock().unwrap();` (anything else raises), closures are taken to run where they are written, helper methods called by a handler must not lock',
     'hook: src/bin/sccache-dist/verif_sched.rs (cfg sccache_verif) — scripted SchedulerOutgoing on synchronised threads, read-only dump of the private maps, re-hashing of the servers map to force its iteration order',
     'translator/c18_consts.py (JobState, MAX_PER_CORE_LOAD, load_weight slack formula, transition arms -> Gen/C18Consts.v)',
 ]
@@ -222,6 +233,14 @@ def gen_guided(rng, n, maxlen):
 def monitor(case, out):
     """The five predicates of the property, evaluated on the real scheduler's maps after every message."""
     vs = []
+    if case and case[0] == b'stress':
+        if out == [b'stress_ok']:
+            return []
+        if isinstance(out, list) and out and out[0] == b'stress_stalled':
+            return ['the scheduler stopped serving: %d concurrent request threads (%d clients, %d heartbeat/status), '
+                    '%d of them finished, %d request rounds done, then no request completed for 5 s (deadlock)'
+                    % (out[2], case[2], case[3], out[1], out[3])]
+        return ['concurrent run: %s' % sx.dumps(out)[:200]]
     if not isinstance(out, list) or len(out) != len(case) or (out and not isinstance(out[0], list)):
         return ['malformed implementation output: %s' % sx.dumps(out)[:200]]
     prev_jobs = {}
@@ -305,6 +324,8 @@ def monitor(case, out):
 
 def nontrivial(case, out):
     """non-trivial: at least one job was recorded, or a message arrived inside an assignment window"""
+    if case and case[0] == b'stress':
+        return True
     try:
         for obs in out:
             if obs[4]:
@@ -318,6 +339,8 @@ def nontrivial(case, out):
 
 
 def stats(case, out):
+    if case and case[0] == b'stress':
+        return ['real_thread_run']
     ks = ['len=%d' % min(len(case), 40)]
     try:
         win = False
@@ -335,11 +358,17 @@ def stats(case, out):
 
 
 def shrink(case):
+    if case and case[0] == b'stress':
+        return
     for i in range(len(case)):
         yield case[:i] + case[i + 1:]
 
 
 def neighbours(case):
+    if case and case[0] == b'stress':
+        for c in STRESS_SEARCH:
+            yield c
+        return
     for i in range(1, len(case)):
         yield case[i:] + case[:i]
     for i, m in enumerate(case):
@@ -367,10 +396,10 @@ def classify(case, out, v):
 def legs(tier):
     def gen(rng, tier):
         if tier == 'thorough':
-            return (gen_exhaustive(FULL, 3) + gen_exhaustive(CORE[:-1], 5) + gen_tour(9, FULL, 10 ** 7)
+            return ([STRESS_SMOKE['thorough']] + gen_exhaustive(FULL, 3) + gen_exhaustive(CORE[:-1], 5) + gen_tour(9, FULL, 10 ** 7)
                     + gen_random(rng, 30000, 40, 'mixed') + gen_random(rng, 15000, 60, 'capacity')
                     + gen_random(rng, 15000, 40, 'window') + gen_random(rng, 10000, 40, 'wide') + gen_guided(rng, 30000, 40))
-        return (gen_exhaustive(FULL, 3) + gen_exhaustive(CORE, 4) + gen_tour(7, FULL, 10 ** 7)
+        return ([STRESS_SMOKE['quick']] + gen_exhaustive(FULL, 3) + gen_exhaustive(CORE, 4) + gen_tour(7, FULL, 10 ** 7)
                 + gen_random(rng, 8000, 30, 'mixed') + gen_random(rng, 4000, 50, 'capacity')
                 + gen_random(rng, 4000, 30, 'window') + gen_random(rng, 2000, 30, 'wide') + gen_guided(rng, 6000, 30))
     return [Leg('sched', gen, monitor=monitor, nontrivial=nontrivial, shrink=shrink, neighbours=neighbours,
@@ -381,7 +410,10 @@ def legs(tier):
                      'messages over the 14 (13) message alphabet CORE; TRANSITION TOUR: every message of FULL from every '
                      'model state reachable within 7 (thorough 9) messages, along a shortest path, all intermediate '
                      'observations compared; PRNG sequences up to 60 messages on up to 3 servers (mixed, '
-                     'capacity-saturating, registration-inside-window, many-core) and guided job-life walks.  '
+                     'capacity-saturating, registration-inside-window, many-core) and guided job-life walks; one REAL-THREAD '
+                     'run (3-4 client threads allocating / failing / being overtaken by a re-registration and walking '
+                     'their jobs to completion, 2-3 heartbeat+status threads, one scheduler, 2 s quick / 8 s thorough, '
+                     'watchdog: no request completed for 5 s).  '
                      'non-trivial = a job was recorded or a message arrived inside an assignment window; '
                      'distinct by full case text')]
 
@@ -396,7 +428,7 @@ def extra(rep, known):
         return
     from ..prng import Rng
     rng = Rng(rep.seed).fork(ID + ':impl-only')
-    cases = (pipeline.corpus_cases(ID, 'sched') + gen_exhaustive(CORE, 4)
+    cases = (STRESS_SEARCH + pipeline.corpus_cases(ID, 'sched') + gen_exhaustive(CORE, 4)
              + gen_random(rng, 6000, 60, 'capacity') + gen_random(rng, 3000, 40, 'wide') + gen_random(rng, 4000, 30, 'mixed')
              + gen_random(rng, 3000, 30, 'window') + gen_guided(rng, 4000, 30))
     outs = pipeline.run_sharded([pipeline.repo_bin('sccache-dist'), '__verif_sched'], [sx.dumps(c) for c in cases])
@@ -430,5 +462,13 @@ def prebuild(rep):
 
 def translate(rep):
     from translator import c18_consts
-    d = c18_consts.write(pipeline.REPO, pipeline.COQ)
-    rep.oblige('translate:c18_consts', True, repr(d))
+    try:
+        d = c18_consts.write(pipeline.REPO, pipeline.COQ)
+        rep.oblige('translate:c18_consts', True, repr(d))
+    except Exception as e:  # unrecognisable source = broken obligation (the stale Gen file is kept)
+        rep.oblige('translate:c18_consts', False, repr(e))
+    try:
+        d = c18_consts.write_locks(pipeline.REPO, pipeline.COQ)
+        rep.oblige('translate:c18_locks', True, repr(d)[:600])
+    except Exception as e:
+        rep.oblige('translate:c18_locks', False, repr(e))
